@@ -67,7 +67,7 @@ def _vectors(dim, tier):
     vs = A.vectors(dim, tier)
     if tier == "thorough":
         return vs
-    return vs[::3] + ([x for x in vs if x.has("near_axis")][:1] if dim >= 3 else [])
+    return A.representatives(vs, (len(vs) + 2) // 3)
 
 
 def _norm_name(dim):
